@@ -51,9 +51,16 @@ def one_case(rng, i, tier):
             # Nelder-Mead walks onto the bound E_S = 0, where the layered
             # model divides by zero (ZeroDivisionError): outside the claim
             method = "leastsq"
+    # a restricted absolute interval that still holds baseline and most of
+    # the indentation (both segments), or the whole segment
+    rx = [0, 0]
+    if rng.random() < 0.4:
+        rx = [-1.6e-6, float(cp + rng.uniform(1.0e-6, 2.5e-6))]
+        if rng.random() < 0.3:
+            rx = rx[::-1]
     return dict(model=mk, true=true, n_app=int(n_app), jitter=jitter,
                 segment=segment, method=method, weight_cp=weight,
-                noise_rel=noise_rel, seed=i)
+                noise_rel=noise_rel, seed=i, range_x=rx)
 
 
 def run_case(cfg, rng):
@@ -89,7 +96,8 @@ def run_case(cfg, rng):
                            + rng.uniform(-1, 1) * BASIN["cp"] * span)
     p["baseline"].set(value=bl_true + rng.uniform(-1, 1) * BASIN["bl"] * fmax)
     kw = dict(model_key=mk, params_initial=p, segment=cfg["segment"],
-              method=cfg["method"], weight_cp=cfg["weight_cp"])
+              method=cfg["method"], weight_cp=cfg["weight_cp"],
+              range_x=list(cfg.get("range_x", [0, 0])))
     if cfg["method"] == "nelder":
         kw["method_kws"] = {"max_nfev": 20000, "tol": 1e-14}
     elif cfg["method"] == "least_squares":
